@@ -1603,6 +1603,68 @@ def strategy_expr(sc: SimCtx, fn, h):
     return max(texts, key=texts.get), hal
 
 
+def make_hook_test(prog, owner_cls, h):
+    """-> predicate on statements of the except-handler h: a notification of a NEW event type whose payload provably fits its metadata"""
+    from .normalize import load_baseline
+    _known = set(load_baseline().get('__attrs__', []))
+
+    class _DC:
+        name = owner_cls
+    dc = _DC
+
+    def well_typed_hook(st):
+        """`self.fire_timed(t, <Cls>.<NEW_EVENT>, {'k': v, ..})` / `self.fire(<NEW_EVENT>, {..})`: the event type is new (an observer hook added to
+        the package), it declares metadata, and the payload display has exactly the declared keys with values of the declared types (the
+        caught exception `e` of `except T as e` has type T) -- so creating the event cannot fail"""
+        if not (isinstance(st, ast.Expr) and isinstance(st.value, ast.Call) and isinstance(st.value.func, ast.Attribute) and is_self_attr(st.value.func)
+                and st.value.func.attr in ('fire', 'fire_timed') and not st.value.keywords):
+            return False
+        a = st.value.args
+        if st.value.func.attr == 'fire_timed':
+            if len(a) != 3 or not (is_self_attr(a[0]) or unparse(a[0]).startswith('self.')):
+                return False
+            evt, payload = a[1], a[2]
+        else:
+            if len(a) != 2:
+                return False
+            evt, payload = a
+        if not (isinstance(evt, ast.Attribute) and evt.attr not in _known and isinstance(payload, ast.Dict)):
+            return False
+        owner = unparse(evt.value)
+        decl = None
+        for k in (prog.mro(owner) if owner in prog.classes else prog.mro(dc.name)):
+            kc = prog.classes.get(k)
+            if kc is not None and evt.attr in kc.assigns:
+                decl = kc.assigns[evt.attr]
+                break
+        if not (isinstance(decl, ast.Call) and unparse(decl.func) == 'EventType' and len(decl.args) == 2 and isinstance(decl.args[1], ast.Dict)):
+            return False
+        meta = {const_value(k): v for k, v in zip(decl.args[1].keys, decl.args[1].values)}
+        keys = [const_value(k) for k in payload.keys]
+        if set(keys) != set(meta) or len(keys) != len(meta):
+            return False
+
+        def subtype(t, d):
+            if t == d or d in ('BaseException', 'object'):
+                return True
+            if d == 'Exception':
+                return t == 'Exception' or t.endswith('Error') or t in prog.classes
+            if t in prog.classes:
+                return d in prog.mro(t)
+            return False
+        for k, v in zip(keys, payload.values):
+            d = unparse(meta[k])
+            if isinstance(v, ast.Name) and h.name and v.id == h.name and h.type is not None and not isinstance(h.type, ast.Tuple):
+                if not subtype(unparse(h.type), d):
+                    return False
+            elif isinstance(v, ast.Constant) and type(v.value).__name__ == d:
+                continue
+            else:
+                return False
+        return True
+    return well_typed_hook
+
+
 def r51_strategy_table(ctx, sc: SimCtx):
     prog = ctx.prog
     ctx.rule('R5.1', 'effect of the except-branch around event.execute() in _run, per ErrorStrategy: continue-strategies touch nothing, pause sets exactly run_state := STOPPING; the loop head re-reads the state')
@@ -1647,6 +1709,7 @@ def r51_strategy_table(ctx, sc: SimCtx):
     ctx.sample(f'R5.1: the handler consults `{S_text}`')
     eff = Effects(prog)
     table = {}
+    well_typed_hook = make_hook_test(prog, dc.name, h)
     for name, val in strategies.items():
         ge = GuardEval(prog, dc.name, {S_text: val}, sc.enums, subst=S_sub)
         effects = []
@@ -1669,6 +1732,9 @@ def r51_strategy_table(ctx, sc: SimCtx):
                     for x in ast.iter_child_nodes(s):
                         if isinstance(x, ast.stmt):
                             run([x])
+                elif well_typed_hook(s):
+                    ctx.sample(f'R5.1: `{short(s, 70)}` is a notification of a new event type whose payload provably satisfies the declared metadata: it cannot '
+                               f'raise and, without subscribers, has no effect')
                 else:
                     for (k, t, n) in eff.of(s):
                         effects.append((k, t))
@@ -1817,7 +1883,11 @@ def r53_step_finally(ctx, sc: SimCtx):
         if isinstance(t, ast.Try):
             for h in t.handlers:
                 risky = []
+                hook = make_hook_test(prog, dc.name, h)
+                hooked = {id(c) for st_ in h.body if hook(st_) for c in ast.walk(st_)}
                 for c in ast.walk(h):
+                    if id(c) in hooked:
+                        continue                 # a well-typed notification of a new event type: cannot fail, no effect without subscribers
                     if isinstance(c, ast.Call):
                         f = unparse(c.func)
                         if not (f in allowed or f.startswith('logger.') or f.startswith('traceback.') or f.startswith('logging.')):
